@@ -71,6 +71,10 @@ class DumperBase(DataStreamProcessor):
             yield row
         DumperBase.inc_attr(self.datapackage.descriptor, self.datapackage_rowcount, counter)
         DumperBase.inc_attr(resource.res.descriptor, self.resource_rowcount, counter)
+        # the descriptor that gets written is the package's own copy of the resource descriptor
+        for descriptor in self.datapackage.descriptor['resources']:
+            if descriptor['name'] == resource.res.descriptor['name'] and descriptor is not resource.res.descriptor:
+                DumperBase.inc_attr(descriptor, self.resource_rowcount, counter)
         resource.res.commit()
         self.datapackage.commit()
 
